@@ -311,6 +311,54 @@ func schedMain(args []string) int {
 					}
 				}
 				enc.Encode(rec)
+				// a detour after the failed persist: change one entry, persist, change it back, persist - the tree then
+				// holds the original contents again, under the original names; it must read back as such through the
+				// node cache the failed persist may have touched, and from the store alone
+				if res.Outcome != "ok" && strings.HasPrefix(contents, "l:") && len(contents) > 2 {
+					ents := strings.Split(contents[2:], ",")
+					pick := ents[(len(F[0])+len(ents)/2)%len(ents)]
+					kv := strings.SplitN(pick, "=", 2)
+					if len(kv) == 2 {
+						w2 := prefix(i)
+						st2 := w2.Store(storeID)
+						st2.Gate = func(name string, b []byte) error {
+							if bad[name] {
+								return runner.ErrInjected
+							}
+							return nil
+						}
+						rec2 := schedRec{Hist: hid, Index: i, Mode: "fault-detour", Writes: len(names), Fail: F, Problems: []string{}}
+						w2.Exec(op)
+						st2.Gate = nil
+						steps := []string{"ins " + tid + " " + kv[0] + " 3737", op, "ins " + tid + " " + kv[0] + " " + kv[1], op}
+						okAll := true
+						var last runner.Result
+						for _, sline := range steps {
+							last = w2.Exec(sline)
+							if last.Outcome != "ok" {
+								rec2.Problems = append(rec2.Problems, "step after the failed persist failed: "+sline+": "+last.ErrText)
+								okAll = false
+								break
+							}
+						}
+						if okAll {
+							if last.Payload != ctl.Payload {
+								rec2.Problems = append(rec2.Problems, "the same contents persisted after the detour have a different root")
+							}
+							if got, ok := complete(w2, storeID, kind, f[2]); !ok || got != contents {
+								rec2.Problems = append(rec2.Problems, "read back from the store alone after the detour: "+got)
+							}
+							// through the world's own cache
+							rl := w2.Exec(fmt.Sprintf("load %s 9000 %d %d", f[2], storeID, kind))
+							if rl.Outcome != "ok" {
+								rec2.Problems = append(rec2.Problems, "load through the cache after the detour failed: "+rl.ErrText)
+							} else if it := w2.Exec("iter 9000"); it.Outcome != "ok" || it.Payload != contents {
+								rec2.Problems = append(rec2.Problems, "the version read back through the node cache differs from what was persisted under that name: "+it.Payload)
+							}
+						}
+						enc.Encode(rec2)
+					}
+				}
 			}
 		}
 	}
